@@ -2,6 +2,8 @@ package props
 
 import (
 	"bytes"
+	stdecdsa "crypto/ecdsa"
+	stded "crypto/ed25519"
 	"crypto/elliptic"
 	"crypto/sha512"
 	"fmt"
@@ -83,8 +85,18 @@ func (c c17) Generate(seed uint64, tier string, idx int) *core.Plan {
 	if idx%29 == 28 {
 		p.Cfg["disjoint"] = 1 // null run: every task has its own object; must be silent
 	}
+	// cold profile: with 16 workers and 4 plans per process, plans with (idx/16)%4 == 0 are the
+	// first plan of a fresh process, where package-level tables and sync.Once state see their
+	// first use. These plans aim at that: one call per task from the operations that touch such
+	// state, and a preemption of the task that runs first, early in its call.
+	cold := (idx/16)%4 == 0 && (kind == oEd || kind == oECDSA) && idx%29 != 28
+	coldOps := map[int][]int{oEd: {0, 4, 0, 4, 2}, oECDSA: {0, 1, 6, 7, 0}}
 	nt := r.Range(2, 6)
 	if kind == oIss3 || kind == oBatch {
+		nt = r.Range(2, 4)
+	}
+	if cold {
+		p.Cfg["warm"] = 0
 		nt = r.Range(2, 4)
 	}
 	total := 0
@@ -93,8 +105,15 @@ func (c c17) Generate(seed uint64, tier string, idx int) *core.Plan {
 		if r.Bool(50) {
 			nc = r.Range(1, 2)
 		}
+		if cold {
+			nc = 1
+		}
 		for k := 0; k < nc; k++ {
-			p.Steps = append(p.Steps, core.Step{Op: "call", A: []int64{int64(t), int64(r.Intn(len(objOps[kind]))), int64(r.Intn(1 << 30))}})
+			op := r.Intn(len(objOps[kind]))
+			if cold {
+				op = coldOps[kind][r.Intn(len(coldOps[kind]))]
+			}
+			p.Steps = append(p.Steps, core.Step{Op: "call", A: []int64{int64(t), int64(op), int64(r.Intn(1 << 30))}})
 			total++
 		}
 	}
@@ -103,7 +122,12 @@ func (c c17) Generate(seed uint64, tier string, idx int) *core.Plan {
 	for _, o := range order {
 		p.Steps = append(p.Steps, core.Step{Op: "order", A: []int64{int64(o)}})
 	}
-	if !r.Bool(25) {
+	if cold {
+		p.Steps = append(p.Steps, core.Step{Op: "preempt", A: []int64{int64(order[0]), int64(r.Intn(700)), int64(order[1])}})
+		if r.Bool(50) {
+			p.Steps = append(p.Steps, core.Step{Op: "preempt", A: []int64{int64(order[1]), int64(r.Intn(700)), int64(order[0])}})
+		}
+	} else if !r.Bool(25) {
 		np := r.Range(1, 3)
 		for i := 0; i < np; i++ {
 			// yield index biased to small values (soon after a call starts) and to ranges seen per op
@@ -195,7 +219,9 @@ func (e *c17env) mkObj(src *entropy.Source) *c17obj {
 		b[1] |= 1
 		o.ebk, _ = ecdsa.CreateKey(e.cv, b)
 	case oEd:
-		o.edk = ed25519.NewKeyFromSeed(seed[:32])
+		// derived with crypto/ed25519 (byte-identical) so that constructing the object does not
+		// touch the fork's package-level tables: their first use happens inside the tasks
+		o.edk = ed25519.PrivateKey(stded.NewKeyFromSeed(seed[:32]))
 		o.edpub = append(ed25519.PublicKey(nil), o.edk[32:]...)
 		o.edbl = entropy.Block(e.p.Seed, 0, "config", "c17/edblind", 32, 0)
 	}
@@ -281,14 +307,14 @@ func (e *c17env) mkArg(src *entropy.Source, helper *c17obj, op string, seed int6
 		dg := sha512.Sum512(r.Bytes(16))
 		a.digest = dg[:]
 		a.ctx = r.Bytes(int(seed % 20))
-		rr, ss, err := ecdsa.Sign(entropy.Reader(), helper.ek, a.digest)
+		// signatures for the verify calls are made with crypto/ecdsa (the fork's package-level
+		// state must see its first use inside the tasks)
+		stdKey := &stdecdsa.PrivateKey{PublicKey: stdecdsa.PublicKey{Curve: e.cv, X: helper.ek.X, Y: helper.ek.Y}, D: helper.ek.D}
+		rr, ss, err := stdecdsa.Sign(entropy.Reader(), stdKey, a.digest)
 		if err != nil {
 			return nil, err
 		}
-		a.sigR = append(rr.Bytes(), 0xff)
-		a.sigR = append(a.sigR, ss.Bytes()...)
-		a.msg = append(rr.Bytes(), ss.Bytes()...)
-		a.der, err = ecdsa.SignASN1(entropy.Reader(), helper.ek, a.digest)
+		a.der, err = stdecdsa.SignASN1(entropy.Reader(), stdKey, a.digest)
 		if err != nil {
 			return nil, err
 		}
@@ -296,7 +322,7 @@ func (e *c17env) mkArg(src *entropy.Source, helper *c17obj, op string, seed int6
 	case oEd:
 		a.msg = r.Bytes(int(seed % 100))
 		a.ctx = r.Bytes(int(seed % 20))
-		a.sigR = ed25519.Sign(helper.edk, a.msg)
+		a.sigR = stded.Sign(stded.PrivateKey(helper.edk), a.msg)
 	}
 	return a, nil
 }
@@ -545,6 +571,14 @@ func (c c17) Execute(p *core.Plan) *core.Result {
 	entropy.Dispatch = conc.CurrentSource
 	s.Run()
 	entropy.Dispatch = func() *entropy.Source { return setup }
+	if s.Abandoned {
+		// a task blocked on a lock held by a preempted task: this schedule cannot be completed
+		// under one-at-a-time control; the plan is abandoned (no verdict) and the process ends
+		res.Probe("schedule abandoned: the running task blocked on a lock held by a preempted task")
+		res.Fingerprint = "abandoned"
+		core.ExitAfterThisPlan = true
+		return res
+	}
 
 	// schedule trace -> fingerprint; results
 	log.Add("kind=%s warm=%d disjoint=%v tasks=%d trace=%v", objName[kind], p.C("warm", 0), disjoint, nt, s.Trace)
